@@ -28,6 +28,21 @@ func runOne(e *hx.Env, r *hx.Report, prop, path string, mon Monitor, isCorpus bo
 		r.Disagree = append(r.Disagree, hx.Disagreement{Where: "replay-unreadable", Impl: path, Replay: path})
 		return
 	}
+	if ops[0] == "schedule" { // kind=schedule: goroutines parked / resumed inside the real code; monitors only
+		vs, err := RunSchedule(ops, rand.New(rand.NewSource(e.Seed)), mon)
+		if err != nil {
+			r.Disagree = append(r.Disagree, hx.Disagreement{Where: "schedule-failed", Impl: err.Error(), Replay: path})
+			return
+		}
+		r.Traces++
+		r.Case(strings.Join(ops, "\n"), true)
+		r.Hit("schedule")
+		for _, v := range vs {
+			v.Replay = path
+			r.Violations = append(r.Violations, v)
+		}
+		return
+	}
 	// kind=obligation files name a broken proof / correspondence point, there is nothing to execute
 	if strings.HasPrefix(ops[0], "{") {
 		return
@@ -83,6 +98,9 @@ func RunProperty(e *hx.Env, prop string, mon Monitor) *hx.Report {
 		r.Extra["exhaustive_states"] = x.HistoryFlags["exhaustive-states"]
 		return r
 	}
+	// the per-pod key mutex: lock-exclusion probe over pairs of entry points on one pod identity
+	lp := LockProbe(e, prop)
+	lp.Fill(r)
 	// profile 1: the default mix
 	p := DefaultParams()
 	t0 := time.Now()
